@@ -275,6 +275,12 @@ func drawImpostor(c *simkit.Choice, ent *simkit.Stream) impRun {
 			// issues certificates for server.sim and ships its own certificate as intermediate
 			sc.Sign = &reftls.Identity{Chain: [][]byte{pki.DER("forged-sign"), pki.DER("v1ee")}, Key: pki.D("forged-sign")}
 			sc.Enc = ident("forged-enc", true)
+			if c.Bool(1, 2, simkit.LFault) {
+				// ... or of a v3 end-entity certificate that carries neither basicConstraints
+				// nor keyUsage (RFC 5280 4.2.1.9: without the extension it is no CA)
+				sc.Sign = &reftls.Identity{Chain: [][]byte{pki.DER("forged3-sign"), pki.DER("v3ee")}, Key: pki.D("forged3-sign")}
+				sc.Enc = ident("forged3-enc", true)
+			}
 		case "S16-dual-usage-sign-cert-enc-key-not-held":
 			// the signing certificate also carries keyEncipherment; the impostor holds the
 			// signing key only and tries it on the ClientKeyExchange. The pre-master must
@@ -354,6 +360,10 @@ func drawImpostor(c *simkit.Choice, ent *simkit.Stream) impRun {
 		ir.Policy = verifying[c.Choose(2, simkit.LFault)]
 	case "C14-leaf-issued-by-v1-end-entity":
 		cc.Cert = &reftls.Identity{Chain: [][]byte{pki.DER("forged-cli"), pki.DER("v1ee")}, Key: pki.D("forged-cli")}
+		if c.Bool(1, 2, simkit.LFault) {
+			// the issuer is a v3 end entity without basicConstraints and keyUsage
+			cc.Cert = &reftls.Identity{Chain: [][]byte{pki.DER("forged3-cli"), pki.DER("v3ee")}, Key: pki.D("forged3-cli")}
+		}
 		ir.Policy = verifying[c.Choose(2, simkit.LFault)]
 	case "C18-verifying-policy-no-client-cas-genuine-cert", "C18-verifying-policy-no-client-cas-selfsigned-cert":
 		// the server demands verified client certificates but was given no ClientCAs
